@@ -103,8 +103,8 @@ Print Assumptions C33_central_bounded_partial.
    and lies in the bounded language *)
 Example C33_wf_corpus_case :
   let i := VL [VL [VZ 4; VZ 0]; VL [VL [VZ 1; VZ 1; VZ 0; VZ 0; VZ (-1)]; VL [VZ 2; VZ 1; VZ 3; VZ 0; VZ 0];
-                                   VL [VZ 6; VZ 1; VZ 1; VZ 0; VZ 0]; VL [VZ 2; VZ 1; VZ 5; VZ (-1); VZ 0]]] in
+                                   VL [VZ 6; VZ 1; VZ 9; VZ 0; VZ 0]; VL [VZ 2; VZ 1; VZ 5; VZ (-1); VZ 0]]] in
   wf_script i = true /\ kf_C33 i = 0 /\
-  dec_script i = Some (4, 0, [OHeaders 1 false 0 (-1); OData 1 3 0 false; ORead 1 1; OData 1 5 (-1) false]) /\
+  dec_script i = Some (4, 0, [OHeaders 1 false 0 (-1); OData 1 3 0 false; ORead 1 9; OData 1 5 (-1) false]) /\
   prop_C33 i (run_C33 i) = true.
 Proof. vm_compute. repeat split. Qed.
